@@ -9,6 +9,8 @@ import (
 	"bytes"
 	"crypto/tls"
 	"fmt"
+	"github.com/pion/dtls/v3/pkg/protocol/extension"
+	"github.com/pion/dtls/v3/pkg/protocol/handshake"
 	"os"
 	"strconv"
 	"strings"
@@ -292,6 +294,165 @@ func vfErrClass(err error) string {
 	return s
 }
 
+// vfC01Hooked: application hooks may rewrite the hellos. Whatever a hook does, two sides that both report success
+// hold the same session: a hook result the library cannot reconcile with its own decision must fail the handshake.
+func vfC01Hooked(t *testing.T, res *vfResult, idx int) {
+	kinds := []string{"server-srtp-other-common-profile", "server-srtp-unoffered-profile", "server-alpn-other-offered", "server-alpn-unoffered",
+		"server-cid-rewritten", "client-srtp-list-reordered", "client-alpn-list-reordered", "server-ems-dropped", "server-suite-other-offered"}
+	kind := kinds[idx%len(kinds)]
+	resumedRound := (idx/len(kinds))%2 == 1
+	cfg := vfBaseCfg(vfSuiteInfo{Name: "default", Auth: "ecdsa"}, "ecdsa")
+	cfg.SRTP, cfg.ALPN, cfg.CIDc, cfg.CIDs, cfg.Store = 2, 2, 4, 4, resumedRound
+	cS, sS := vfNewMemStore("c"), vfNewMemStore("s")
+	editExt := func(exts []extension.Value, typ extension.Type, f func([]byte) []byte) []extension.Value {
+		out := make([]extension.Value, 0, len(exts))
+		for _, e := range exts {
+			if e.ExtensionType() == typ {
+				if d, err := e.MarshalData(); err == nil {
+					if nd := f(d); nd != nil {
+						out = append(out, extension.Raw{Type: typ, Data: nd})
+					}
+
+					continue
+				}
+			}
+			out = append(out, e)
+		}
+
+		return out
+	}
+	mk := func() ([]ClientOption, []ServerOption) {
+		co, so := cfg.Options(cS, sS)
+		switch kind {
+		case "server-srtp-other-common-profile", "server-srtp-unoffered-profile":
+			so = append(so, WithServerHelloMessageHook(func(sh handshake.MessageServerHello) handshake.Message {
+				sh.Extensions = editExt(sh.Extensions, extension.TypeUseSRTP, func(d []byte) []byte {
+					n := append([]byte(nil), d...)
+					if len(n) >= 4 {
+						if kind == "server-srtp-unoffered-profile" {
+							n[2], n[3] = 0x00, 0x02 // SRTP_AES128_CM_HMAC_SHA1_32: in neither list
+						} else if n[3] == 0x07 {
+							n[2], n[3] = 0x00, 0x08 // the other profile both lists contain
+						} else {
+							n[2], n[3] = 0x00, 0x07
+						}
+					}
+
+					return n
+				})
+
+				return &sh
+			}))
+		case "server-alpn-other-offered", "server-alpn-unoffered":
+			so = append(so, WithServerHelloMessageHook(func(sh handshake.MessageServerHello) handshake.Message {
+				sh.Extensions = editExt(sh.Extensions, extension.TypeALPN, func(d []byte) []byte {
+					p := "b"
+					if kind == "server-alpn-unoffered" {
+						p = "zz"
+					} else if len(d) >= 4 && string(d[3:]) == "b" {
+						p = "c"
+					}
+
+					return append([]byte{0, byte(len(p) + 1), byte(len(p))}, p...)
+				})
+
+				return &sh
+			}))
+		case "server-cid-rewritten":
+			so = append(so, WithServerHelloMessageHook(func(sh handshake.MessageServerHello) handshake.Message {
+				sh.Extensions = editExt(sh.Extensions, extension.TypeConnectionID, func(d []byte) []byte { return []byte{3, 0xaa, 0xbb, 0xcc} })
+
+				return &sh
+			}))
+		case "server-ems-dropped":
+			so = append(so, WithServerHelloMessageHook(func(sh handshake.MessageServerHello) handshake.Message {
+				sh.Extensions = editExt(sh.Extensions, extension.TypeExtendedMasterSecret, func(d []byte) []byte { return nil })
+
+				return &sh
+			}))
+		case "server-suite-other-offered":
+			so = append(so, WithServerHelloMessageHook(func(sh handshake.MessageServerHello) handshake.Message {
+				other := uint16(TLS_ECDHE_ECDSA_WITH_AES_256_GCM_SHA384)
+				if sh.CipherSuiteID != nil && *sh.CipherSuiteID == other {
+					other = uint16(TLS_ECDHE_ECDSA_WITH_AES_128_GCM_SHA256)
+				}
+				sh.CipherSuiteID = &other
+
+				return &sh
+			}))
+		case "client-srtp-list-reordered":
+			co = append(co, WithClientHelloMessageHook(func(ch handshake.MessageClientHello) handshake.Message {
+				ch.Extensions = editExt(ch.Extensions, extension.TypeUseSRTP, func(d []byte) []byte {
+					n := append([]byte(nil), d...)
+					if len(n) >= 6 {
+						n[2], n[3], n[4], n[5] = n[4], n[5], n[2], n[3]
+					}
+
+					return n
+				})
+
+				return &ch
+			}))
+		case "client-alpn-list-reordered":
+			co = append(co, WithClientHelloMessageHook(func(ch handshake.MessageClientHello) handshake.Message {
+				ch.Extensions = editExt(ch.Extensions, extension.TypeALPN, func(d []byte) []byte {
+					return []byte{0, 6, 1, 'c', 1, 'b', 1, 'a'}
+				})
+
+				return &ch
+			}))
+		}
+
+		return co, so
+	}
+	res.Eval(1)
+	rounds := 1
+	if resumedRound {
+		rounds = 2
+	}
+	for round := 0; round < rounds; round++ {
+		co, so := mk()
+		p, err := vfNewPair(vfNewNet(), co, so)
+		if err != nil {
+			res.Count("hooked_config_rejected", 1)
+
+			return
+		}
+		ce, se := p.Handshake(30 * time.Second)
+		id := fmt.Sprintf("hooked/%s/round%d", kind, round)
+		res.NonTrivial(id)
+		res.Count("hooked_handshakes", 1)
+		switch {
+		case ce == nil && se == nil:
+			res.Count("hooked_completed", 1)
+			res.Seen("hooked_outcomes", id+": completed")
+			for _, b := range vfAgreement(cfg, p, round > 0) {
+				if strings.HasPrefix(b, "client's view of the server chain") || strings.HasPrefix(b, "server's view") {
+					continue
+				}
+				res.Violate("C01:hooked:"+kind+":"+vfFirstWords(b, 2), fmt.Sprintf("%s: both sides completed but disagree: %s", id, b), map[string]any{"hooked": idx})
+			}
+		case (ce == nil) != (se == nil):
+			res.Count("hooked_one_sided", 1)
+			res.Seen("hooked_outcomes", id+": one-sided "+vfErrNorm(ce)+" / "+vfErrNorm(se))
+		default:
+			res.Count("hooked_refused", 1)
+			res.Seen("hooked_outcomes", id+": refused")
+		}
+		p.Close()
+		synctest.Wait()
+	}
+}
+
+func vfFirstWords(s string, n int) string {
+	f := strings.Fields(s)
+	if len(f) > n {
+		f = f[:n]
+	}
+
+	return strings.Trim(strings.Join(f, "-"), ":")
+}
+
 func TestVF_C01(t *testing.T) {
 	vfGetPKI()
 	res := vfNewResult("C01", "configuration points drawn per cipher suite from the generator (suite x cert kind x version "+
@@ -331,6 +492,7 @@ func TestVF_C01(t *testing.T) {
 	vfBubbles(t, total, func(t *testing.T, i int) {
 		vfC01Case(t, res, i, suites[i%len(suites)])
 	})
+	vfBubbles(t, 18, func(t *testing.T, i int) { vfC01Hooked(t, res, i) })
 	for _, s := range suites {
 		if res.Get("ok/"+s.Name) == 0 {
 			res.Inconc("no successful handshake observed for suite " + s.Name)
